@@ -110,7 +110,11 @@ def gen_plan(rng, tier, i, seed):
     elif scen == "short_reads_clustered_indel":
         # the same haplotype on every copy, preferably one that carries an insertion / deletion
         indel = [a["name"] for a in normal if any(g["variants"][v]["kind"] in ("ins", "del") for v in a["vars"])]
-        pick = rng.choice(indel or [a["name"] for a in normal])
+        # (preferably a sub-allele with a silent insertion of three or more bases: the reads that end on its anchor
+        # base or inside it are then several per copy)
+        long_ins = [a["name"] for a in normal if any(g["variants"][v]["kind"] == "ins" and not g["variants"][v]["func"]
+                                                     and len(g["variants"][v]["alt"]) >= 3 for v in a["vars"])]
+        pick = rng.choice(long_ins or indel or [a["name"] for a in normal])
         units = [{"type": "normal", "allele": pick}, {"type": "normal", "allele": pick}]
         if rng.random() < 0.3:
             units.append({"type": "extra", "allele": pick})
